@@ -12,7 +12,7 @@ import itertools
 
 from checks.c03 import _items_catalogue, build
 from checks.c19 import parse_shipped
-from lib import e5ref, vtime
+from lib import e5ref, gen, vtime
 
 PROPERTY = "C08"
 LEVEL = "exploration"
@@ -73,7 +73,7 @@ def _sequence(ctx, role, classes, cat, seqlen):
     handler = rig.handler
     handled = _callbacks(handler, classes)
     unhandled = sorted(k for k in classes if k not in handled and k[1] % 2 == 1)
-    sysgen = itertools.count(0x40000000 + rng.randrange(1 << 16) * 64)
+    sysgen = gen.system_bytes(rng, 0x40000000 + rng.randrange(1 << 16) * 64)
     # user callbacks through the public API
     user = {}
     for _ in range(rng.randint(0, 2)):
